@@ -266,8 +266,14 @@ def run_harness(binary, engine, vectors, *, args=(), timeout=900, env_extra=None
         for p, outp, fo, fe, n in procs:
             rc = p.wait()
             fo.close(); fe.close()
+            rs = []
             with open(outp) as f:
-                rs = [json.loads(l) for l in f if l.strip()]
+                for l in f:
+                    if l.strip():
+                        try:
+                            rs.append(json.loads(l))
+                        except ValueError:
+                            break          # truncated line of a harness that was killed (timeout)
             if rc != 0 or len(rs) != n:
                 err = open(outp + ".err").read()[-3000:]
                 raise Inconclusive("harness %s rc=%s results=%d/%d\n%s" % (engine, rc, len(rs), n, err))
